@@ -157,6 +157,7 @@ def run(scn: Dict[str, Any]) -> UdpRun:
         out.running_but_not_listening = []
 
         in_stop = [False]
+        entered: Dict[int, bool] = {}
 
         def sample_invariant():
             # sampled at every loop iteration, also while start() is in progress (a stop() in progress may clear
@@ -235,6 +236,9 @@ def run(scn: Dict[str, Any]) -> UdpRun:
             # lifecycle actions
             bidx = st.get("bridge", 0)
             b = bridges[bidx]
+            if kind == "aexit" and not entered.get(bidx):
+                # Python leaves an async context only after entering it succeeded; an unpaired step is the explicit call
+                kind = "stop"
             act = {"uid": st.get("uid"), "kind": kind, "bridge": bidx, "seq0": sim.seq, "mono0": sim.mono_us,
                    "foreign": busy_for(bidx)}
             sim.rec("action", kind, bidx, "invoke")
@@ -249,12 +253,20 @@ def run(scn: Dict[str, Any]) -> UdpRun:
                     await b.stop()
                 elif kind == "aenter":
                     await b.__aenter__()
+                    entered[bidx] = True
                 elif kind == "aexit":
+                    entered[bidx] = False
                     if st.get("exc"):
                         from .tcp_exec import body_exception_class
                         ecls = body_exception_class(st.get("exc_kind"))
                         e = ecls("body failed")
-                        await b.__aexit__(ecls, e, None)
+                        try:
+                            await b.__aexit__(ecls, e, None)
+                        except BaseException as got:  # noqa
+                            # an __aexit__ that re-raises the very exception it was handed has not failed
+                            if got is not e:
+                                raise
+                            act["reraised_body_exception"] = True
                     else:
                         await b.__aexit__(None, None, None)
                 else:
